@@ -1,0 +1,35 @@
+//go:build verif
+
+package chk
+
+// Contracts for deductive verification (read by /verif/govc). This file holds
+// comments only: it cannot change behaviour with the build tag on or off.
+
+//@ unit hasIgnoreOperationID
+//@ ensures result0 <==> exists i in 0..len(opt) :: istype(opt[i], *ignoreOpID)
+//@ loop 1 at "range opt" invariant forall i in 0..loopi :: !istype(opt[i], *ignoreOpID)
+//@ assigns nothing
+//@ props C17
+
+//@ unit hasIncludeServerError
+//@ ensures result0 <==> exists i in 0..len(opt) :: istype(opt[i], *includeServerError)
+//@ loop 1 at "range opt" invariant forall i in 0..loopi :: !istype(opt[i], *includeServerError)
+//@ assigns nothing
+//@ props C17
+
+// wantMatches: result r matches the wanted result under the documented options: details are
+// compared only when the want carries them, the operation ID unless IgnoreOperationID is given,
+// the server error text only when IncludeServerError is given.
+//@ pred optIgnoreID(opt []resultOpt) = exists i in 0..len(opt) :: istype(opt[i], *ignoreOpID)
+//@ pred optServerErr(opt []resultOpt) = exists i in 0..len(opt) :: istype(opt[i], *includeServerError)
+//@ pred wantMatches(r *client.OpResult, want *client.OpResult, opt []resultOpt) =
+//@   resultMatches(r, want, ignoreFieldsOpt(want.Details == nil, optIgnoreID(opt), !optServerErr(opt)))
+
+//@ unit HasResult
+//@ requires !fatal && want != nil && tagof(t) != 0
+//@ ensures[fatal-iff-absent] fatal <==> !(exists i in 0..len(res) :: wantMatches(res[i], want, opt))
+//@ loop 1 at "range res" invariant found <==> (exists i in 0..loopi :: wantMatches(res[i], want, opt))
+//@ loop 1 invariant !fatal && len(opts) == 2 && opts[0] == ignoreFieldsOpt(want.Details == nil, optIgnoreID(opt), !optServerErr(opt))
+//@ loop 2 at "range res" invariant !fatal && !found
+//@ assigns fatal
+//@ props C17
